@@ -4,7 +4,7 @@ from .core import (ite, band, bor, bnot, implies, const, is_slice_of, smin, smax
                    BList, BBase, PyExc, Unsupported, PathAbort, is_sym, T, TB, mk_bool, mk_int, to_bytes_val,
                    is_byteslike, bcat, bslice, bytes_eq)
 from .interp import Obj, Interp, LoopSpec, BoundMethod, UNBOUND
-from .symlist import SymList, SymMap, from_list, forall
+from .symlist import SymList, SymMap, SpecList, from_list, forall
 from .frontend import FuncVal, ClassVal, EnumMember
 
 MODE = "symbolic"
